@@ -15,7 +15,6 @@ REQUIRED = [
     "DaeVerif.C01.Props.must_rules_continues",
     "DaeVerif.C01.Props.non_matching_rule_skipped",
     "DaeVerif.C01.Props.first_final_decides",
-    "DaeVerif.C01.Props.route_ipversion",
     "DaeVerif.C01.Props.match_bytes_is_first_match",
     "DaeVerif.C01.Props.outbound_in_reserved_range_misroutes",
     "DaeVerif.C01.Props.route_ipversion_condition",
@@ -26,6 +25,7 @@ REQUIRED = [
     "DaeVerif.C01.Props.compiled_port_range_inclusive",
     "DaeVerif.C01.Props.compiled_first_final_decides",
     "DaeVerif.Compose.match_with_real_domain_matcher",
+    "DaeVerif.Compose.empty_name_satisfies_no_domain_condition",
 ]
 
 
@@ -78,7 +78,7 @@ def run(ctx):
                    {"stream": "c01", "line": ln, "program": prog_of.get(ln), "op": op, "impl": im, "model": mo,
                     "replay": "VERIF_SEED=%d ./check C01 %s" % (ctx.seed, ctx.tier)})
     for i, mo in enumerate(model_l):
-        if "SPEC-DIFFERS" in mo or "REAL-MATCHER-DIFFERS" in mo or "BYTES-DIFFER" in mo or "bad-name" in mo or mo == "bad-op":
+        if "SPEC-DIFFERS" in mo or "REAL-MATCHER-DIFFERS" in mo or "BYTES-DIFFER" in mo or "EMPTY-NAME-DIFFERS" in mo or "bad-name" in mo or mo == "bad-op":
             ctx.report("model driver: scan and specification differ / bad op (harness-model protocol bug)", {"line": i + 1, "op": ops_l[i], "model": mo})
             break
     # generator quality: which rule decided (diagnostic second pass of the model driver)
@@ -105,6 +105,26 @@ def run(ctx):
     ctx.cov["input_distribution"] = stats["counters"]
     ctx.cov["distinct_decisions"] = len(hist)
     ctx.cov["programs"] = sum(1 for o in ops_l if o.startswith("prog "))
+    # generator floors: a silent loss of a whole input class is a broken check, not a green one
+    c = stats["counters"]
+    floors = []
+    for key, least, what in [
+        ("prog.accepted_with_exactly_limit_match_sets", 1, "no program of exactly MaxMatchSetLen match sets was accepted"),
+        ("prog.refused_with_limit_plus_one_match_sets", 1, "no program of MaxMatchSetLen+1 match sets was refused"),
+        ("prog.max_lpm_sets_in_one_program", 300, "no accepted program with more than 300 LPM sets"),
+        ("cond.long_value_list", 20, "fewer than 20 conditions with 5..40 values"),
+        ("cond.ip_set_near_twin", 10, "fewer than 10 address sets that differ from an earlier one in one value"),
+        ("pkt.no_domain_vs_regex_matching_empty_string", 5, "fewer than 5 packets without a domain met a regex that matches the empty string"),
+        ("pkt.mac_one_bit_off", 20, "fewer than 20 packets whose MAC is one bit off a rule's MAC"),
+        ("pkt.zero_mac_vs_mac_rule", 10, "fewer than 10 frames without a MAC aimed at a mac() rule"),
+        ("pkt.via_Route_raw_args", 1000, "fewer than 1000 packets through Route"),
+    ]:
+        if c.get(key, 0) < least:
+            floors.append(f"{what} ({key}={c.get(key, 0)})")
+    ctx.cov["generator_floors_failed"] = floors
+    if floors and not ctx.violations and not ctx.proof_failures:
+        ctx.say("GENERATOR-FLOOR-FAILED " + "; ".join(floors[:5]))
+        return 2
     return ctx.finish(
         rule="one evaluation = (generated routing section, packet aimed at one of its rules with boundary values) through the real "
              "parser+config.New+builder+Route/Match vs the proved specification; distinct_nontrivial = distinct (program, packet) "
